@@ -156,8 +156,38 @@ def _add_histories(scs, rng, frac=0.4):
     """A random history of calls (trainability switches, observers, mode round trips) between writing the masks and
     observing: none of them may change what the masked network computes, reports or exports."""
     for sc in scs:
-        if rng.random() < frac:
+        if "pre" not in sc and rng.random() < frac:
             sc["pre"] = [rng.choice(PRE_OPS) for _ in range(rng.randint(1, 4))]
+
+
+def _life_base(which, rng, pid):
+    """Two fixed pruned networks on which every call history of PITLifeMC is replayed."""
+    if which == 0:      # 1-D: causal conv (K=5) -> relu -> shared group with a depthwise conv -> flatten -> linear
+        arch = {"dim": 1, "c0": 2, "sp": 8, "nodes": [
+            {"op": "conv", "ins": [0], "out": 4, "k": 5, "d": 1, "causal": True, "bn": True},
+            {"op": "relu", "ins": [1]},
+            {"op": "conv", "ins": [2], "out": 4, "k": 3, "d": 2, "causal": True},
+            {"op": "add", "ins": [2, 3]},
+            {"op": "conv", "ins": [4], "dw": True, "k": 3, "causal": True},
+            {"op": "pool", "ins": [5]},
+            {"op": "flat", "ins": [6]},
+            {"op": "lin", "ins": [7], "out": 3}]}
+        sc = {"arch": arch, "alive": {"1": [2, 4], "3": [2, 4]},
+              "tm": {"1": {"b": [0, 0, 10, 10, 10], "g": [0, 10, 10]}, "3": {"b": [0, 10, 10], "g": [10, 10]}}}
+    else:               # 2-D: conv+bn -> dw -> conv -> pool -> flatten -> linear
+        arch = {"dim": 2, "c0": 3, "sp": 4, "nodes": [
+            {"op": "conv", "ins": [0], "out": 6, "k": 3, "bn": True},
+            {"op": "conv", "ins": [1], "dw": True, "k": 3},
+            {"op": "relu", "ins": [2]},
+            {"op": "conv", "ins": [3], "out": 4, "k": 1, "bias": False},
+            {"op": "pool", "ins": [4]},
+            {"op": "flat", "ins": [5]},
+            {"op": "lin", "ins": [6], "out": 2}]}
+        sc = {"arch": arch, "alive": {"1": [1, 4, 6], "4": [2, 4]}, "tm": {}}
+    sc.update({"fold": rng.random() < 0.5, "seed": rng.randrange(10 ** 6), "props": _props(pid)})
+    if pid == "C04":
+        sc["costs"] = rng.choice(COSTSETS_2D if which else COSTSETS)
+    return sc
 
 
 def _key(sc):
@@ -247,6 +277,17 @@ def run_family(pid: str, tier: str, seed: int, replay=None) -> int:
         lim = {"C01": 500, "C04": 600, "C08": 300}[pid] if quick else 0
         scs += _graph_state_scenarios(states, pid, rng, lim, folds=(False, True) if pid == "C01" else (False,),
                                       costs=(pid == "C04"))
+    # every call history up to the bound of PITLifeMC, replayed between writing the masks and observing
+    if pid in ("C01", "C04"):
+        hs = pitgen.dump_states("PITLifeMC", "PITLifeMC_quick" if quick else "PITLifeMC_thorough", R)
+        for st in hs:
+            if not st["hist"]:
+                continue
+            for which in (0, 1):
+                sc = _life_base(which, rng, pid)
+                sc["pre"] = list(st["hist"])
+                sc["src"] = "tlc-life"
+                scs.append(sc)
     # layers invoked twice (weight sharing): states of the reuse grammar that contain a reused layer
     if pid in ("C04", "C09"):
         rst = pitgen.dump_states("FeatGraphMC", "FeatGraphMC_reuse", R, workers=16, timeout=3600)
